@@ -195,6 +195,73 @@ pub fn c07_schedules(run: &mut Run) {
     for a in res {
         run.acc.merge(a, &[]);
     }
+    // Long go chains on cheap roots, plain binary, real clock: iterative deepening gets very deep
+    // within an ordinary slice there; any 'panicked' on stderr is a refuter of "nothing panics".
+    let plain = match bb::build_plain() {
+        Ok(b) => b,
+        Err(e) => {
+            run.acc.inconclusive.push(e);
+            return;
+        }
+    };
+    let h = ZobristHasher::create_zobrist_hasher();
+    let deep = super::search::deep_iteration_roots(seed ^ 0x77, tier.pick(48, 480), &h);
+    let sessions = tier.pick(16usize, 160);
+    let res = run_parallel(16, sessions, |sid| {
+        let mut acc = Acc::new();
+        let mut rng = Rng::stream(seed, 0xC07_8000 + sid as u64);
+        let mut s = match Sess::start(&plain, SpawnOpts::default(), false) {
+            Ok(s) => s,
+            Err(e) => {
+                acc.inconclusive.push(format!("session start failed: {}", e));
+                return acc;
+            }
+        };
+        for _ in 0..3 {
+            let root = &deep[rng.below(deep.len() as u64) as usize];
+            s.position(&root.hist);
+            for _ in 0..(4 + rng.below(8)) {
+                let cur = match &s.cur {
+                    Some(c) if has_legal_move(c) => c.clone(),
+                    _ => break,
+                };
+                let ms = 20 + rng.below(70) as u32;
+                let mut g = s.go(&slice_args(cur.stm, ms, &mut rng), WATCHDOG);
+                acc.evaluations += 1;
+                acc.count("deep_chain_gos", 1);
+                let bm = match &g.bestmove {
+                    Some(b) => b.0.clone(),
+                    None => {
+                        acc.inconclusive.push("deep chain: go not answered".into());
+                        return acc;
+                    }
+                };
+                s.settle(&mut g, WATCHDOG);
+                let maxd = g.info_lines.iter().filter_map(|l| parse_info(l, true).ok()).map(|i| i.depth).max().unwrap_or(0);
+                acc.max("deep_chain_max_depth_reported", maxd);
+                if maxd >= 30 {
+                    acc.feature("blackbox_iteration_30_or_deeper");
+                    acc.distinct.insert(hash64(&format!("deepbb|{}|{}", sid, cur.to_fen())));
+                }
+                if let Some(err) = s.stderr_has_panic() {
+                    acc.violation(
+                        format!("C07|blackbox-panic|{}", cur.to_fen()),
+                        format!("'panicked' on stderr during '{}' on {} (history: '{}'): {}", g.args, cur.to_fen(), truncate(&root.hist.command(), 200), truncate(&err, 300)),
+                        json!({"kind": "session", "property": "C07", "script": s.eng.transcript.iter().filter(|e| e.dir == Dir::Sent).map(|e| e.line.clone()).collect::<Vec<_>>()}),
+                    );
+                    return acc;
+                }
+                match parse_mv(&bm) {
+                    Some(m) if legal_moves(&cur).contains(&m) => s.cur = Some(apply(&cur, m)),
+                    _ => break,
+                }
+            }
+        }
+        acc
+    });
+    for a in res {
+        run.acc.merge(a, &["deep_chain_max_depth_reported"]);
+    }
 }
 
 // ------------------------------------------------------------------------------------------------
